@@ -380,10 +380,10 @@ func matchLeaf(l leaf, host string, qt uint16, mode string, o wireObs) (why stri
 		if len(addrs) > 0 || len(others) > 0 {
 			return fmt.Sprintf("the answer is not empty: %v %v", addrs, others)
 		}
-		if len(cnames) > 0 {
-			if w := cnameOK(l.Canon); w != "" {
-				return w
-			}
+		// Reached through a CNAME entry, the reply carries that CNAME and nothing
+		// else (AGHTechDoc, "CNAME+A records": the AAAA question for the alias).
+		if w := cnameOK(l.Canon); w != "" {
+			return w
 		}
 	}
 	return ""
